@@ -190,18 +190,26 @@ def coq_build(targets=None, timeout=1500, keep_going=True):
 
 def _gen_deps(prop_id):
     """names of Gen files the property file depends on (transitively), via coqdep."""
+    return [os.path.basename(f)[:-2] for f in _dep_files(prop_id) if f.startswith('Gen/')]
+
+
+def _dep_files(prop_id):
     rc, out = sh('coqdep -Q . TenpyV -sort Props/%s.v 2>/dev/null' % prop_id, cwd=COQ, timeout=120)
-    return re.findall(r'Gen/(\w+)\.v', out or '')
+    return [f for f in (out or '').split() if f.endswith('.v')]
 
 
-def hygiene():
-    """grep gate: no Admitted/Axiom/... anywhere in the development (comments stripped)."""
+def hygiene(prop_id=None):
+    """grep gate: no Admitted/Axiom/... in the development (comments stripped).  With prop_id only
+    the files Props/<prop_id>.v depends on (so that another property's work in progress does not
+    interfere); without, every file."""
     bad = []
-    for root, _, fns in os.walk(COQ):
-        for fn in fns:
-            if not fn.endswith('.v'):
-                continue
-            p = os.path.join(root, fn)
+    if prop_id is not None:
+        files = [os.path.join(COQ, f) for f in _dep_files(prop_id)]
+    else:
+        files = [os.path.join(root, fn) for root, _, fns in os.walk(COQ) for fn in fns if fn.endswith('.v')]
+    if True:
+        for p in files:
+            fn = os.path.basename(p)
             txt = open(p).read()
             txt = strip_coq_comments(txt)
             for i, line in enumerate(txt.split('\n')):
@@ -297,7 +305,7 @@ def check_proofs(prop_id, extra_targets=()):
             st.problems.append('coq build failed at %s:%s: %s' % (f, l, ' '.join(txt.split())[:600]))
         else:
             st.problems.append('coq build failed (rc=%d): %s' % (rc, out[-600:]))
-    bad = hygiene()
+    bad = hygiene(prop_id)
     if bad:
         st.ok = False
         st.problems.extend('hygiene: ' + b for b in bad[:10])
